@@ -1,0 +1,275 @@
+//! Verification hooks. Only compiled with `--cfg mainline_verif`; never part of a normal build.
+//!
+//! * [Env]: a process-global environment that, when installed, replaces the monotonic clock,
+//!   the wall clock and the UDP socket used by the node. With no environment installed the
+//!   shims below behave exactly like the `std` types they stand in for.
+//! * Read-only accessors used by external monitors (wire codec, state snapshot, raw put
+//!   receiver, routing-table re-key, scripted actor channel).
+#![allow(missing_docs)]
+
+use std::fmt::{self, Debug, Formatter};
+use std::io;
+use std::net::{SocketAddr, SocketAddrV4, ToSocketAddrs};
+use std::sync::{Arc, Mutex, RwLock};
+use std::time::Duration;
+
+use crate::actor::{ActorMessage, ResponseSender};
+use crate::common::messages::Message;
+use crate::core::PutError;
+use crate::{Dht, Id, MutableItem, Node, RoutingTable};
+
+pub use crate::actor::verif_actor::{snapshot, Snapshot, TableSnapshot};
+pub use crate::common::messages::*;
+pub use crate::core::server::StoreSizes;
+
+// === Environment ===
+
+/// What a simulated world has to provide.
+pub trait Env: Send + Sync + 'static {
+    /// Monotonic time since an arbitrary origin.
+    fn now(&self) -> Duration;
+    /// Wall clock, micro seconds since the Unix epoch.
+    fn unix_micros(&self) -> u64;
+    /// Bind a socket, returns its handle and the local address.
+    fn bind(&self, _requested: SocketAddr) -> io::Result<(u64, SocketAddr)> {
+        Err(io::Error::new(io::ErrorKind::Unsupported, "no network"))
+    }
+    /// The socket was dropped; `panicking` tells whether its owner thread is unwinding.
+    fn close(&self, _sock: u64, _panicking: bool) {}
+    fn send_to(&self, _sock: u64, _buf: &[u8], _to: SocketAddr) -> io::Result<usize> {
+        Err(io::Error::new(io::ErrorKind::Unsupported, "no network"))
+    }
+    /// Blocks (in real time) until the world lets the caller continue; returns a datagram or
+    /// `WouldBlock` when `timeout` of virtual time elapsed.
+    fn recv_from(
+        &self,
+        _sock: u64,
+        _buf: &mut [u8],
+        _timeout: Option<Duration>,
+    ) -> io::Result<(usize, SocketAddr)> {
+        Err(io::Error::new(io::ErrorKind::Unsupported, "no network"))
+    }
+}
+
+static ENV: RwLock<Option<Arc<dyn Env>>> = RwLock::new(None);
+
+/// Install (or remove) the process-global environment.
+pub fn set_env(env: Option<Arc<dyn Env>>) {
+    *ENV.write().unwrap_or_else(|e| e.into_inner()) = env;
+}
+
+fn env() -> Option<Arc<dyn Env>> {
+    ENV.read().unwrap_or_else(|e| e.into_inner()).clone()
+}
+
+pub(crate) fn unix_micros() -> Option<u64> {
+    env().map(|e| e.unix_micros())
+}
+
+// === Instant ===
+
+/// Stand-in for [std::time::Instant] (the subset this crate uses).
+#[derive(Clone, Copy, Debug, PartialEq)]
+pub enum Instant {
+    Real(std::time::Instant),
+    Virtual(Duration),
+}
+
+impl Instant {
+    pub fn now() -> Self {
+        match env() {
+            Some(env) => Instant::Virtual(env.now()),
+            None => Instant::Real(std::time::Instant::now()),
+        }
+    }
+
+    pub fn elapsed(&self) -> Duration {
+        match self {
+            Instant::Real(instant) => instant.elapsed(),
+            Instant::Virtual(then) => env()
+                .map(|env| env.now().saturating_sub(*then))
+                .unwrap_or_default(),
+        }
+    }
+}
+
+// === UdpSocket ===
+
+/// Stand-in for [std::net::UdpSocket] (the subset this crate uses).
+pub enum UdpSocket {
+    Real(std::net::UdpSocket),
+    Sim {
+        env: Arc<dyn Env>,
+        id: u64,
+        local: SocketAddr,
+        timeout: Mutex<Option<Duration>>,
+    },
+}
+
+impl Debug for UdpSocket {
+    fn fmt(&self, f: &mut Formatter<'_>) -> fmt::Result {
+        match self {
+            UdpSocket::Real(socket) => socket.fmt(f),
+            UdpSocket::Sim { id, local, .. } => write!(f, "SimUdpSocket({id}, {local})"),
+        }
+    }
+}
+
+impl UdpSocket {
+    pub fn bind<A: ToSocketAddrs>(addr: A) -> io::Result<Self> {
+        match env() {
+            Some(env) => {
+                let requested = addr
+                    .to_socket_addrs()?
+                    .next()
+                    .ok_or_else(|| io::Error::new(io::ErrorKind::InvalidInput, "no address"))?;
+                let (id, local) = env.bind(requested)?;
+                Ok(UdpSocket::Sim {
+                    env,
+                    id,
+                    local,
+                    timeout: Mutex::new(None),
+                })
+            }
+            None => Ok(UdpSocket::Real(std::net::UdpSocket::bind(addr)?)),
+        }
+    }
+
+    pub fn local_addr(&self) -> io::Result<SocketAddr> {
+        match self {
+            UdpSocket::Real(socket) => socket.local_addr(),
+            UdpSocket::Sim { local, .. } => Ok(*local),
+        }
+    }
+
+    pub fn set_read_timeout(&self, dur: Option<Duration>) -> io::Result<()> {
+        match self {
+            UdpSocket::Real(socket) => socket.set_read_timeout(dur),
+            UdpSocket::Sim { timeout, .. } => {
+                *timeout.lock().unwrap_or_else(|e| e.into_inner()) = dur;
+                Ok(())
+            }
+        }
+    }
+
+    pub fn recv_from(&self, buf: &mut [u8]) -> io::Result<(usize, SocketAddr)> {
+        match self {
+            UdpSocket::Real(socket) => socket.recv_from(buf),
+            UdpSocket::Sim {
+                env, id, timeout, ..
+            } => {
+                let timeout = *timeout.lock().unwrap_or_else(|e| e.into_inner());
+                env.recv_from(*id, buf, timeout)
+            }
+        }
+    }
+
+    pub fn send_to<A: ToSocketAddrs>(&self, buf: &[u8], addr: A) -> io::Result<usize> {
+        match self {
+            UdpSocket::Real(socket) => socket.send_to(buf, addr),
+            UdpSocket::Sim { env, id, .. } => {
+                let to = addr
+                    .to_socket_addrs()?
+                    .next()
+                    .ok_or_else(|| io::Error::new(io::ErrorKind::InvalidInput, "no address"))?;
+                env.send_to(*id, buf, to)
+            }
+        }
+    }
+}
+
+impl Drop for UdpSocket {
+    fn drop(&mut self) {
+        if let UdpSocket::Sim { env, id, .. } = self {
+            env.close(*id, std::thread::panicking());
+        }
+    }
+}
+
+// === Wire codec ===
+
+/// Public mirror of the crate-private KRPC `Message`.
+#[derive(Debug, Clone, PartialEq)]
+pub struct WireMessage {
+    pub transaction_id: u32,
+    pub version: Option<[u8; 4]>,
+    pub requester_ip: Option<SocketAddrV4>,
+    pub message_type: MessageType,
+    pub read_only: bool,
+}
+
+impl WireMessage {
+    /// `Message::to_bytes`
+    pub fn encode(&self) -> Result<Vec<u8>, String> {
+        Message {
+            transaction_id: self.transaction_id,
+            version: self.version,
+            requester_ip: self.requester_ip,
+            message_type: self.message_type.clone(),
+            read_only: self.read_only,
+        }
+        .to_bytes()
+        .map_err(|e| e.to_string())
+    }
+
+    /// `Message::from_bytes`
+    pub fn decode(bytes: &[u8]) -> Result<WireMessage, String> {
+        Message::from_bytes(bytes)
+            .map(|m| WireMessage {
+                transaction_id: m.transaction_id,
+                version: m.version,
+                requester_ip: m.requester_ip,
+                message_type: m.message_type,
+                read_only: m.read_only,
+            })
+            .map_err(|e| e.to_string())
+    }
+}
+
+// === Accessors ===
+
+/// `Dht::put` that hands out the receiving end instead of blocking on it, so that a monitor
+/// can observe a second delivery or a channel that is never completed.
+pub fn put_raw(
+    dht: &Dht,
+    request: PutRequestSpecific,
+    extra_nodes: Option<Box<[Node]>>,
+) -> flume::Receiver<Result<Id, PutError>> {
+    dht.put_inner(request, extra_nodes)
+}
+
+/// `RoutingTable::reset_id` (crate-private re-key used after a public address is confirmed).
+pub fn reset_id(table: &mut RoutingTable, id: Id) {
+    table.reset_id(id)
+}
+
+/// The harness side of a [Dht] handle whose actor channel is owned by the harness.
+#[derive(Debug)]
+pub struct Script(flume::Receiver<ActorMessage>);
+
+/// A [Dht] handle without an actor thread; the returned [Script] plays the actor.
+pub fn scripted_dht() -> (Dht, Script) {
+    let (sender, receiver) = flume::unbounded();
+    (Dht(sender), Script(receiver))
+}
+
+impl Script {
+    /// Answer the next pending `get_mutable` call with `items` (in this order), then end its
+    /// stream. Returns false if no such call is pending. `block` waits for the call to arrive.
+    pub fn serve_get_mutable(&self, items: &[MutableItem], block: bool) -> bool {
+        let message = if block {
+            self.0.recv().ok()
+        } else {
+            self.0.try_recv().ok()
+        };
+        match message {
+            Some(ActorMessage::Get(_, ResponseSender::Mutable(sender))) => {
+                for item in items {
+                    let _ = sender.send(item.clone());
+                }
+                true
+            }
+            _ => false,
+        }
+    }
+}
